@@ -347,7 +347,57 @@ def _exc_getattr(self, eng, name):
         raise ProgExc(AttributeError, name)
 
 
+# ------------------------------------------------------- concrete text reader
+class ConcreteReader:
+    """io.StringIO over a concrete text: read(1) and readline() only (what the Lexer uses)."""
+
+    def __init__(self, text):
+        self.text = text
+        self.pos = 0
+
+    def rest(self):
+        return self.text[self.pos:]
+
+    def __pyvc_getattr__(self, eng, name):
+        if name == "read":
+            return NativeMethod(ConcreteReader._read, self, name)
+        if name == "readline":
+            return NativeMethod(ConcreteReader._readline, self, name)
+        raise Unsupported(f"reader.{name}")
+
+    @staticmethod
+    def _read(eng, recv, args, kwargs):
+        eng.assumptions.add("io model: concrete text reader, read(1) returns the next character or '' at the end, readline() the rest of the line incl. its newline")
+        if list(args) != [1] or kwargs:
+            raise Unsupported("reader.read(n) with n != 1")
+        ch = recv.text[recv.pos:recv.pos + 1]
+        recv.pos += len(ch)
+        return ch
+
+    @staticmethod
+    def _readline(eng, recv, args, kwargs):
+        if args or kwargs:
+            raise Unsupported("reader.readline(size)")
+        k = recv.text.find("\n", recv.pos)
+        end = len(recv.text) if k < 0 else k + 1
+        line = recv.text[recv.pos:end]
+        recv.pos = end
+        return line
+
+
+_prev_is_pure_native = models.is_pure_native
+
+
+def _is_pure_native(fn):
+    import re
+
+    if isinstance(getattr(fn, "__self__", None), (re.Pattern, re.Match)):
+        return True  # regex matching on concrete strings is run natively
+    return _prev_is_pure_native(fn)
+
+
 def install():
+    models.is_pure_native = _is_pure_native
     ProgExc.__pyvc_getattr__ = _exc_getattr
     m = _mod()
     models.EXTRA_MODELS[next] = _m_next
